@@ -70,7 +70,7 @@ def gen(rng, tier):
     for n in (12, 15, 18, 21, 24):
         ws = bip39.rand_phrase(rng, n)
         base = " ".join(ws)
-        for total in (200, 215, 216, 217, 218, 240, 255, 256, 257, 300, 511, 512, 513, 1023, 1024, 1025, 4095, 4096, 4097, 9999, 10000, 10001, 65535, 65536, 65537, 1000003):
+        for total in (200, 215, 216, 217, 218, 240, 255, 256, 257, 300, 511, 512, 513, 1023, 1024, 1025, 4095, 4096, 4097, 9999, 10000, 10001, 65535, 65536, 65537) + ((1000003,) if n == 24 else ()):
             if total < len(base):
                 continue
             pad = total - len(base)
